@@ -44,7 +44,8 @@ def gen_device(rng):
         elif c["kind"] == "ryd" and rng.random() < 0.75:
             c["bw"] = c["bw"] or 40.0
             c["eom"] = {"bw": rng.choice([40.0, 24.0, 48.0]), "buf": rng.choice([None, None, 40, 240]),
-                        "multiple_beam_control": rng.random() < 0.7}
+                        "multiple_beam_control": rng.random() < 0.7,
+                        "controlled_beams": rng.choice([("BLUE",), ("BLUE", "RED"), ("BLUE", "RED")])}
             c["maxAmp"] = c["maxAmp"] or 25.0
             c["maxDet"] = None if c["maxDet"] in (0.0, 1.0) else c["maxDet"]
         chs.append(c)
@@ -108,7 +109,7 @@ class World:
         self.ids = list(self.device.channels.keys())
         self.dmm_ids = list(self.device.dmm_channels.keys())
         # distinct amplitudes: the projection recognises a block's setpoint by (amp_on, detuning_on)
-        self.setpoints = [(a, rng.choice([0.0, -2.0, 3.0]), rng.choice([0.0, 0.0, -20.0]))
+        self.setpoints = [(a, rng.choice([0.0, -2.0, 3.0]), rng.choice([0.0, 0.0, -20.0, 1.0, -4.0]))
                           for a in rng.sample([1.0, 2.5, 12.5, 0.5], 3)]
 
     def program(self, n_calls):
